@@ -18,24 +18,65 @@ open Bxh Bxh.Exec
 
 /-! ### the verdict -/
 
-/-- a proof is accepted exactly when its bytes hash to the committed value and are well formed
-(`ProofKind.ok`), the origin (source of a request, destination of a receipt) parses, belongs to
-this BitXHub, and the rule bound to that chain accepts -/
+/-- a proof is accepted exactly when its bytes hash to the committed value and are well formed (`ProofKind.ok`, or a `BxhProof`:
+`ProofKind.msig`), the origin (source of a request, destination of a receipt) parses, and either the origin belongs to this
+BitXHub and the rule bound to that chain accepts, or it belongs to another BitXHub that is registered here and the proof carries
+more than `(n-1)/3` signatures of distinct registered validators of that hub (`min k n` of the `k` signers `val-1 … val-k` are
+among the `n` registered ones) -/
 theorem C03_verdict_none_iff (cfg : Cfg) (i : Ibtp) (p : ProofKind) :
     proofVerdict cfg i p = none ↔
-      p = .ok ∧ ∃ s, (if i.typ.isRequest then i.frm else i.to) = some s ∧ s.bxh = cfg.bxh ∧ cfg.rule s.chain = some true := by
+      ∃ s, (if i.typ.isRequest then i.frm else i.to) = some s ∧
+        ((s.bxh = cfg.bxh ∧ (p = .ok ∨ ∃ k, p = .msig k) ∧ cfg.rule s.chain = some true) ∨
+         (s.bxh ≠ cfg.bxh ∧ ∃ k, p = .msig k ∧ cfg.hubs.contains s.bxh = true ∧ min k cfg.hubN > (cfg.hubN - 1) / 3)) := by
   unfold proofVerdict
-  cases p <;> simp only [reduceCtorEq, false_and]
-  · cases ho : (if i.typ.isRequest then i.frm else i.to) with
+  cases p with
+  | none => simp
+  | bad => simp
+  | plainFalse => simp
+  | ok =>
+    cases ho : (if i.typ.isRequest then i.frm else i.to) with
     | none => simp
     | some s =>
-      simp only [true_and, Option.some.injEq, exists_eq_left']
       by_cases hb : s.bxh = cfg.bxh
       · cases hr : cfg.rule s.chain with
-        | none => simp [hb]
-        | some b => cases b <;> simp [hb]
+        | none => simp [hb, hr]
+        | some b => cases b <;> simp [hb, hr]
       · simp [hb]
-  all_goals simp
+  | msig k =>
+    cases ho : (if i.typ.isRequest then i.frm else i.to) with
+    | none => simp
+    | some s =>
+      by_cases hb : s.bxh = cfg.bxh
+      · cases hr : cfg.rule s.chain with
+        | none => simp [hb, hr]
+        | some b => cases b <;> simp [hb, hr]
+      · by_cases hh : cfg.hubs.contains s.bxh = true
+        · by_cases hk : min k cfg.hubN > (cfg.hubN - 1) / 3
+          · simp [hb, hh, hk]
+          · simp [hb, hh, hk]
+        · simp [hb, hh]
+
+/-- an IBTP relayed from a BitXHub that is not registered here is never accepted, whatever it carries -/
+theorem C03_unregistered_hub_rejected (cfg : Cfg) (i : Ibtp) (p : ProofKind) (s : SvcId)
+    (ho : (if i.typ.isRequest then i.frm else i.to) = some s) (hb : s.bxh ≠ cfg.bxh) (hh : cfg.hubs.contains s.bxh = false) :
+    proofVerdict cfg i p ≠ none := by
+  intro h
+  obtain ⟨s', hs', hc⟩ := (C03_verdict_none_iff cfg i p).mp h
+  rw [ho] at hs'; cases hs'
+  rcases hc with ⟨h1, _⟩ | ⟨_, k, _, h2, _⟩
+  · exact hb h1
+  · rw [hh] at h2; cases h2
+
+/-- too few signatures: with `n` registered validators, `k ≤ (n-1)/3` signers never pass -/
+theorem C03_too_few_signatures_rejected (cfg : Cfg) (i : Ibtp) (k : Nat) (s : SvcId)
+    (ho : (if i.typ.isRequest then i.frm else i.to) = some s) (hb : s.bxh ≠ cfg.bxh) (hk : k ≤ (cfg.hubN - 1) / 3) :
+    proofVerdict cfg i (.msig k) ≠ none := by
+  intro h
+  obtain ⟨s', hs', hc⟩ := (C03_verdict_none_iff cfg i (.msig k)).mp h
+  rw [ho] at hs'; cases hs'
+  rcases hc with ⟨h1, _⟩ | ⟨_, k', hk', _, h3⟩
+  · exact hb h1
+  · cases hk'; omega
 
 /-- every other proof (absent, hash mismatch, rule error, plain false, unknown / foreign / malformed origin) is rejected -/
 theorem C03_bad_proof_rejected (cfg : Cfg) (i : Ibtp) :
